@@ -126,8 +126,9 @@ def ob_inv_entry(ctx):
     try: r = ob_inv_entry_special(ctx)
     except (Unsupported, AttributeError, TypeError, KeyError, z3.Z3Exception) as e: r = inconc('%s: %s' % (type(e).__name__, e), structural=True)
     if r.get('structural'):
-        # the structure-independent check (run once, under inv/step) contains its own entry obligation
-        return ok('loop shape not the textbook one (%s): the entry obligation is part of the structure-independent check reported under inv/step' % r['detail'][:120], sample=dict(part='entry', deferred_to='inv/step'))
+        # the textbook entry state is not what the loop starts from: the structure-independent check (which contains its own entry obligation)
+        # decides; it is run here as well as under inv/step because the specialised step proof may still succeed on its own
+        g = inv_generic(ctx); g['detail'] = '[loop entry not the textbook one (%s); structure-independent check] %s' % (r['detail'][:120], g.get('detail', '')); return g
     return r
 def ob_inv_step(ctx):
     try: r = ob_inv_step_special(ctx)
